@@ -112,4 +112,52 @@ theorem C02_no_ub (D : Derive) (t : Target) (h : D.WF) (ht : t.WF) (n : Int) (s 
 example : nextLoop exD1 3 [⟨-10, -10, 0⟩] = .ub .unwrapUncheckedNone ∧ transmute exD1 4 = .ub .transmuteInvalid := by
   refine ⟨by decide, by decide⟩
 
+/-! ### no UB in the function bodies translated from /repo/src (`Generated/Templates.lean`) -/
+
+/-- every translated function returns `.ok _` on every admissible argument (no false `transmute`, no unchecked
+unwrap of `None`, no read of an unwritten `MaybeUninit`, no out-of-bounds index, no arithmetic overflow), and
+every enum value it returns is a declared variant -/
+theorem C02_source (D : Derive) (tg : Target) (md : Modes) (h : D.WF) (ht : tg.WF)
+    (n : Int) (hn : D.repr.InRange n) (s : Name) (v : Int) (hv : v ∈ D.vals) :
+    (∃ r, T.tryFromFn D tg md n = .ok r ∧ T.tryFromTrait D tg md n = .ok r ∧ ∀ e, r = some e → e ∈ D.vals) ∧
+    (∃ r, T.next D tg md v = .ok r ∧ ∀ w, r = some w → w ∈ D.vals) ∧
+    (∃ r, T.nextBack D tg md v = .ok r ∧ ∀ w, r = some w → w ∈ D.vals) ∧
+    (md.asStr ≠ .auto → ∃ nm, T.asStr D tg md v = .ok nm ∧ T.display D tg md v = .ok nm ∧ T.debug D tg md v = .ok nm ∧ T.intoStr D tg md v = .ok nm) ∧
+    (md.fromStrFn ≠ .auto → ∃ r, T.fromStrFn D tg md s = .ok r ∧ ∀ e, r = some e → e ∈ D.vals) ∧
+    (md.fromStrTrait ≠ .auto → ∃ r, T.fromStrTrait D tg md s = .ok r ∧ ∀ e, r = some e → e ∈ D.vals) := by
+  obtain ⟨r, h1, h2, h3⟩ := C02_tryFrom D h n
+  obtain ⟨⟨r3, h4, h5⟩, ⟨r4, h6, h7⟩⟩ := C02_next D h v hv
+  refine ⟨⟨r, ?_, ?_, h3⟩, ⟨r3, ?_, h5⟩, ⟨r4, ?_, h7⟩, fun hm => ?_, fun hm => ?_, fun hm => ?_⟩
+  · rw [T.tryFromFn_eq D tg md h n hn]; exact h1
+  · rw [T.tryFromTrait_eq D tg md h n hn]; exact h2
+  · rw [T.next_eq D tg md h v hv]; exact h4
+  · rw [T.nextBack_eq D tg md h v hv]; exact h6
+  · obtain ⟨nm, _, a, b, c, d⟩ := C03_source D tg md h ht hm v hv
+    exact ⟨nm, a, b, c, d⟩
+  · exact ⟨_, (C04_source D tg md h s).1 hm, fun e he => (C04_asStr_of_fromStr D h s e he).2⟩
+  · exact ⟨_, (C04_source D tg md h s).2 hm, fun e he => (C04_asStr_of_fromStr D h s e he).2⟩
+
+/-- the translated `iter()` and `range(a, b)`: no operation of any finite history is UB or panics, and every
+yielded item is a declared variant -/
+theorem C02_source_iter (D : Derive) (tg : Target) (md : Modes) (h : D.WF) (ht : tg.WF)
+    (hm : md.iter ≠ .auto) (hr : md.iter = .range → D.gapless = true) (ops : List Op) (fin : Fin) :
+    ∃ st st' outs o, T.iter D tg md = .ok st ∧ T.runT D tg md st ops = .ok (st', outs) ∧
+      T.finishT D tg md st' fin = .ok o ∧ ∀ x, .item (some x) ∈ outs → x ∈ D.vals := by
+  obtain ⟨st, st', h1, h2, h3⟩ := C06_source D tg md h ht hm hr ops fin
+  refine ⟨st, st', _, _, h1, h2, h3, fun x hx => ?_⟩
+  have := (cursor_run_mem ops (spec.iter D.sem)).1 x hx
+  simpa [spec.iter] using this
+
+theorem C02_source_range (D : Derive) (tg : Target) (md : Modes) (h : D.WF) (ht : tg.WF)
+    (hm : md.iter = .range ∨ md.iter = .nextAndBack ∨ md.iter = .table) (hr : md.iter = .range → D.gapless = true)
+    (a b : Int) (ha : a ∈ D.vals) (hb : b ∈ D.vals) (ops : List Op) (fin : Fin) :
+    ∃ st st' outs o, T.range D tg md a b = .ok st ∧ T.runT D tg md st ops = .ok (st', outs) ∧
+      T.finishT D tg md st' fin = .ok o ∧ ∀ x, .item (some x) ∈ outs → x ∈ D.vals := by
+  obtain ⟨st, st', h1, h2, h3⟩ := C07_source D tg md h ht hm hr a b ha hb ops fin
+  refine ⟨st, st', _, _, h1, h2, h3, fun x hx => ?_⟩
+  have := (cursor_run_mem ops (spec.range D.sem a b)).1 x hx
+  unfold spec.range at this
+  have := (List.mem_filter.mp this).1
+  simpa using this
+
 end ET.Thm
